@@ -1,7 +1,7 @@
 (* PromqlCheck.v — executable comparison of the PromQL model with observations of the real
    parser + metrics query engine (used by the generated case files of C09). *)
 From SigM Require Import Base Promql.
-From Coq Require Import QArith.
+From Coq Require Import QArith Qabs.
 Open Scope N_scope.
 
 (* the regular-expression fragment the harness generates: alternatives separated by '|',
@@ -42,16 +42,33 @@ Definition res_eqb (m o : obs) : bool :=
                     | None => false
                     end) m.
 
-Inductive qcase := CQ (q : query) | CA (op : binop) (q1 q2 : query).
+Inductive qcase := CQ (q : query) | CA (op : binop) (q1 q2 : query) | CN (q : nquery).
+
+(* nested aggregations can produce non-dyadic rationals (avg of counts: 5/3) that binary64 rounds; all
+   other generated values are exact.  Equal, or within 2^-50 relative of the model's exact value. *)
+Definition q_close (m o : Q) : bool :=
+  Qeq_bool m o || Qle_bool (Qabs (m - o) * inject_Z (2 ^ 50)) (Qabs m).
+Definition pts_close (a b : list (Z * Q)) : bool :=
+  Nat.eqb (length a) (length b) &&
+  forallb (fun p => existsb (fun p' => Z.eqb (fst p) (fst p') && q_close (snd p) (snd p')) b) a.
+Definition res_close (m o : obs) : bool :=
+  Nat.eqb (length m) (length o) &&
+  forallb (fun e => match lookup_id (fst e) o with
+                    | Some ps => pts_close (snd e) ps
+                    | None => false
+                    end) m.
+Definition case_eqb (c : qcase) : obs -> obs -> bool :=
+  match c with CN _ => res_close | _ => res_eqb end.
 
 Definition run_case (db : list series) (c : qcase) : obs :=
   match c with
   | CQ q => run_query frag_match q db
   | CA op q1 q2 => run_arith frag_match op q1 q2 db
+  | CN q => run_nest frag_match q db
   end.
 
 Definition check_case (db : list series) (q : qcase) (o : obs) : bool :=
-  res_eqb (run_case db q) o.
+  case_eqb q (run_case db q) o.
 
 (* idx is an N: case numbers are dataset*10000 + stage*1000 + query *)
 Fixpoint check_cases (db : list series) (cs : list (qcase * obs)) (idx : N) : list N :=
@@ -65,14 +82,17 @@ Definition run_case_w (db : list series) (w : Z * Z) (c : qcase) : obs :=
   match c with
   | CQ q => run_query_range frag_match (fst w) (snd w) q db
   | CA op q1 q2 => run_arith_range frag_match (fst w) (snd w) op q1 q2 db
+  | CN q => run_nest_range frag_match (fst w) (snd w) q db
   end.
 
 Fixpoint check_cases_w (db : list series) (cs : list ((Z * Z) * qcase * obs)) (idx : N) : list N :=
   match cs with
   | [] => []
-  | (w, q, o) :: r => (if res_eqb (run_case_w db w q) o then [] else [idx]) ++ check_cases_w db r (idx + 1)
+  | (w, q, o) :: r => (if case_eqb q (run_case_w db w q) o then [] else [idx]) ++ check_cases_w db r (idx + 1)
   end.
 
 Definition mk_series (n : str) (l : labels) (c : list (list pt)) : series :=
   {| s_name := n; s_labels := l; s_chunks := c |}.
 Definition mk_m (k : str) (op : mop) (v : str) : matcher := {| m_key := k; m_op := op; m_val := v |}.
+Definition mk_nq (f2 : aggfn) (g2 : grouping) (f1 : aggfn) (g1 : grouping) (n : str) (ms : list matcher) : nquery :=
+  {| n_f2 := f2; n_g2 := g2; n_f1 := f1; n_g1 := g1; n_name := n; n_ms := ms |}.
